@@ -3,6 +3,7 @@ package eng
 
 import (
 	_ "aaverif/eng/atest"
+	_ "aaverif/eng/bundle"
 	_ "aaverif/eng/engsim"
 	_ "aaverif/eng/hist"
 	_ "aaverif/eng/imports"
